@@ -885,6 +885,8 @@ int tNMEA2000::GetSequenceCounter(unsigned long PGN, int iDev) {
   unsigned long sc;
   for ( size_t i=0; i<last; i++ ) {
     if ( Devices[iDev].PGNSequenceCounters[i]==0 ) { // Empty place, use this
+      // Own counters are reserved for declared fast packet transmit PGNs. Others use common counter.
+      if ( !(IsTxPGN(PGN,iDev) && IsFastPacketPGN(PGN)) ) break;
       Devices[iDev].PGNSequenceCounters[i]=PGN;
       return 0; // Start from sequence 0
     }
